@@ -74,7 +74,7 @@ fn worker(
     first: BoxedDispatchable,
 ) -> impl FnOnce() {
     move || {
-        counter.fetch_add(1, Ordering::AcqRel);
+        // The slot has been reserved by `dispatch`.
         let _guard = CounterGuard(counter);
         // The job this worker was spawned for is handed over directly. Sending it
         // through the rendezvous channel would block the dispatcher for ever if the
@@ -121,7 +121,11 @@ impl AsyncifyPool {
                 TrySendError::Full(f) => {
                     if self.thread_limit == 0 {
                         panic!("the thread pool is needed but no worker thread is running");
-                    } else if self.counter.load(Ordering::Acquire) >= self.thread_limit {
+                    } else if self.counter.fetch_add(1, Ordering::AcqRel) >= self.thread_limit {
+                        // The slot for a new worker is reserved here rather than by the
+                        // worker once it runs: otherwise every dispatch until the new
+                        // thread has started would see room and spawn beyond the limit.
+                        self.counter.fetch_sub(1, Ordering::AcqRel);
                         // SAFETY: we can ensure the type
                         Err(DispatchError(*unsafe {
                             Box::from_raw(Box::into_raw(f).cast())
